@@ -36,6 +36,8 @@ pub fn can_be_used(lhs: &Type, rhs: &Type) -> bool {
 }
 
 pub fn exec(iter: Variable, function: Variable) -> ExecResult {
+    #[cfg(feature = "verif")]
+    let _helper = crate::verif::helper_scope();
     let result_type = function.as_type().return_type().unwrap();
     let result = MAP
         .exec_with_args(&[iter, function])?
